@@ -11,4 +11,4 @@ import roundtrip  # noqa: E402
 
 if __name__ == "__main__":
     # C06: name local parts need no PROV-N escaping (no full-URI attribute names, whose compaction may contain anything)
-    sys.exit(roundtrip.run("C06", "provn", common.Gen.ALL - {"full-uri-name"}, reader=provn_reader.read_provn, label="independent PROV-N reader"))
+    sys.exit(roundtrip.run("C06", "provn", common.Gen.ALL - {"full-uri-name"}, reader=provn_reader.read_provn, label="independent PROV-N reader", history=True))
